@@ -442,31 +442,34 @@ def _(c):
     c.ensures("C10.per-print-state-equals-fresh", lambda f: per_print_clean(f.self, fresh_state(f, f.self._logger)),
               props=("C10",))
     def documented_initial_state(f):
-        """Base case of every per-step argument (and the meaning of 'a freshly initialised plugin'): exclusion enabled, no
-        episode open, nothing owed or deferred, position unknown until homed (E at 0), millimetres, absolute coordinates,
-        no offsets.  Stated explicitly -- the comparison with a fresh object alone would accept any default the
-        constructor and resetState share."""
-        st = f.self
-        pos = st.position
-        conds = [st._exclusionEnabled, Not(st.excluding), is_none(st.excludeStartTime) if st.excludeStartTime is not None else True,
-                 eq(st.numExcludedCommands, 0), eq(st.numCommands, 0), st.lastRetraction is None, st.lastPosition is None,
-                 eq(st.feedRate, 0), eq(st.feedRateUnitMultiplier, 1)]
-        pend = st.pendingCommands
-        conds.append(len(pend) == 0 if hasattr(pend, "__len__") and not hasattr(pend, "view") else eq(pend.view().n, 0))
-        for name in ("X_AXIS", "Y_AXIS", "Z_AXIS", "E_AXIS"):
-            ax = getattr(pos, name)
-            cur = ax.current
-            if name == "E_AXIS":
-                conds.append(And(Not(is_none(cur)), eq(val(cur), 0)) if cur is not None else False)
-            else:
-                conds.append(is_none(cur) if cur is not None else True)
-            conds += [eq(ax.offset, 0), eq(ax.homeOffset, 0), ax.absoluteMode, eq(ax.unitMultiplier, 1)]
-        return And(*conds)
+        return initial_state_conditions(f.self)
     c.ensures("C10.documented-initial-state", documented_initial_state, props=("C10", "C01", "C02", "C03", "C04", "C05", "C11", "C14"))
     c.ensures("C10.config-and-regions-kept", lambda f: And(
         config_same(f.self, f.old.self),
         If(f.a.clearExcludedRegions, eq(R.rl_len(f.self.excludedRegions), 0),
            R.same_list(f.self.excludedRegions, f.old.self.excludedRegions))), props=("C10", "C11"))
+
+
+def initial_state_conditions(st):
+    """Base case of every per-step argument (and the meaning of 'a freshly initialised plugin'): exclusion enabled, no
+    episode open, nothing owed or deferred, position unknown until homed (E at 0), millimetres, absolute coordinates,
+    no offsets.  Stated explicitly -- the comparison with a fresh object alone would accept any default the
+    constructor and resetState share."""
+    pos = st.position
+    conds = [st._exclusionEnabled, Not(st.excluding), is_none(st.excludeStartTime) if st.excludeStartTime is not None else True,
+             eq(st.numExcludedCommands, 0), eq(st.numCommands, 0), st.lastRetraction is None, st.lastPosition is None,
+             eq(st.feedRate, 0), eq(st.feedRateUnitMultiplier, 1)]
+    pend = st.pendingCommands
+    conds.append(len(pend) == 0 if hasattr(pend, "__len__") and not hasattr(pend, "view") else eq(pend.view().n, 0))
+    for name in ("X_AXIS", "Y_AXIS", "Z_AXIS", "E_AXIS"):
+        ax = getattr(pos, name)
+        cur = ax.current
+        if name == "E_AXIS":
+            conds.append(And(Not(is_none(cur)), eq(val(cur), 0)) if cur is not None else False)
+        else:
+            conds.append(is_none(cur) if cur is not None else True)
+        conds += [eq(ax.offset, 0), eq(ax.homeOffset, 0), ax.absoluteMode, eq(ax.unitMultiplier, 1)]
+    return And(*conds)
 
 
 # ---------------------------------------------------------------------------------------------
@@ -654,3 +657,41 @@ def _(c):
                           (ga.parameterPattern is not None and ga.parameterPattern.pattern == pat)]
         return And(*conds) if conds else True
     c.ensures("C06.deferral-and-action-tables-mirror-the-configuration", tables, props=("C06", "C14"))
+
+
+# ---------------------------------------------------------------------------------------------
+# initialize(): the base case of the lifecycle (C11) and of "a freshly initialised plugin" (C10)
+@contract("__init__.ExcludeRegionPlugin.initialize")
+def _(c):
+    """After initialize(): no print is active, the state is the documented initial state with no regions, the handlers
+    work on that very state, the settings have been applied (the callee's contract), and listeners got exactly one
+    notification carrying the empty list."""
+    def pre(b):
+        vals = {"clearRegionsAfterPrintFinishes": b.bool("cfg.clearRegionsAfterPrintFinishes"),
+                "mayShrinkRegionsWhilePrinting": b.bool("cfg.mayShrinkRegionsWhilePrinting"),
+                "enteringExcludedRegionGcode": b.optstr("cfg.enteringExcludedRegionGcode"),
+                "exitingExcludedRegionGcode": b.optstr("cfg.exitingExcludedRegionGcode"),
+                "extendedExcludeGcodes": b.list([]), "atCommandActions": b.list([]),
+                "loggingMode": "octoprint"}
+        p = b.new("ExcludeRegionPlugin", _logger=b.logger(), _activePrintJob=None, _loggingMode=None, _pluginLoggingHandler=None,
+                  clearRegionsAfterPrintFinishes=None, mayShrinkRegionsWhilePrinting=None, state=None, gcodeHandlers=None,
+                  _plugin_manager=b.plugin_manager(), _identifier="excluderegion", _plugin_version="0.0", _settings=b.settings(vals))
+        g = {"cfg": vals, "global": b.settings({"feature.g90InfluencesExtruder": b.bool("cfg.g90InfluencesExtruder")}, is_global=True)}
+        return {"self": p, "args": {}, "ghost": g}
+    c.pre(pre)
+    c.inline_callees = {"__init__.ExcludeRegionPlugin._handleSettingsUpdated", "__init__.ExcludeRegionPlugin._notifyExcludedRegionsChanged"}
+
+    def post(f):
+        p = f.self
+        st = p.state
+        if st is None or p.gcodeHandlers is None:
+            return False
+        regs = st.excludedRegions
+        n_regs = len(regs) if isinstance(regs, list) else (len(regs.items) if hasattr(regs, "items") else R.rl_len(regs))
+        log = messages(p)
+        return And(p._activePrintJob is False if isinstance(p._activePrintJob, bool) else Not(p._activePrintJob),
+                   initial_state_conditions(st), eq(n_regs, 0), p.gcodeHandlers.state is st,
+                   len(log) == 1,
+                   Iff(p.clearRegionsAfterPrintFinishes, f.g["cfg"]["clearRegionsAfterPrintFinishes"]),
+                   Iff(p.mayShrinkRegionsWhilePrinting, f.g["cfg"]["mayShrinkRegionsWhilePrinting"]))
+    c.ensures("C11.initialised-idle-with-the-documented-initial-state", post, props=("C11", "C10", "C13"))
